@@ -29,7 +29,12 @@ def call_oracle(mod, pystog, case, res):
     about returned values"""
     if isinstance(res, dict) and res.get("reuse_error"):
         return res["reuse_error"]
-    return mod.oracle(pystog, case, res)
+    try:
+        return mod.oracle(pystog, case, res)
+    except Exception as e:       # the oracle calls the implementation again (other data, other options): an exception there is a finding
+        tb = traceback.format_exc().strip().splitlines()
+        where = next((ln.strip() for ln in reversed(tb) if "/pystog/" in ln), "")
+        return "a further call made while checking the property raised %s: %s %s" % (type(e).__name__, str(e)[:200], where[:160])
 
 
 def run_case(mod, pystog, case):
@@ -290,5 +295,25 @@ def _abbrev(o, n=6):
     return o
 
 
+def guarded_main():
+    """a check that cannot complete (import of the package fails, a harness step raises on this tree) has not shown the property:
+    that is reported like any other broken obligation, naming what stopped it"""
+    try:
+        main()
+    except SystemExit:
+        raise
+    except BaseException as e:
+        pid = (sys.argv[1] if len(sys.argv) > 1 else "C00").upper()
+        tb = traceback.format_exc()
+        rdir = os.path.join(C.OUT, "replays", pid)
+        os.makedirs(rdir, exist_ok=True)
+        path = os.path.join(rdir, "broken_check_did_not_complete.json")
+        C.write_json(path, {"property": pid, "kind": "broken", "no_longer_checks": ["the check itself did not complete: %s: %s" % (type(e).__name__, str(e)[:300])],
+                            "traceback": tb[-3000:], "source": C.source_fingerprint() if hasattr(C, "source_fingerprint") else None})
+        sys.stderr.write(tb)
+        print("VIOLATION property=%s replay=%s no-failing-input-found" % (pid, os.path.relpath(path, C.OUT)))
+        sys.exit(1)
+
+
 if __name__ == "__main__":
-    main()
+    guarded_main()
